@@ -74,6 +74,18 @@ class SMap:
         self.valkind = valkind
         self.has = has        # z3 function key -> Bool
         self.get = get        # z3 function key -> value
+        self.val_range = (None, None)
+
+    def lookup(self, I, tk):
+        """the value term for a key, with the declared value range instantiated for this key (the quantified range
+        fact is not seen by the branch-feasibility solver)"""
+        v = self.get(tk)
+        lo, hi = self.val_range
+        if lo is not None:
+            I.p.assume(v >= lo)
+        if hi is not None:
+            I.p.assume(v <= hi)
+        return v
 
 
 class SpecNative:
@@ -845,7 +857,7 @@ def subscript(I, o, k):
         tk = I.term(k)
         if not I.branch(o.has(tk)):
             raise PyExc('KeyError', o.name)
-        return Sym(o.valkind, o.get(tk))
+        return Sym(o.valkind, o.lookup(I, tk))
     if isinstance(o, str):
         if isinstance(k, int):
             try:
